@@ -1258,7 +1258,7 @@ class TreeHeightDistribution(PhaseTypeDistribution, DensityAwareDistribution):
 
             i += 1
 
-        if i - 1 == self.max_iter:
+        if p < self.p_absorption:
             self._logger.warning(
                 "Could not reliably find time of almost sure absorption after maximum number of iterations. "
                 f"Using time {t:.1f} with probability of absorption 1 - {1 - p:.1e}. "
